@@ -359,8 +359,9 @@ impl ActionBind {
         for binding in &mut self.bindings {
             let value = reader.value(binding.input);
             if binding.ignored {
-                // Ignore until we read zero for this mapping.
-                if value.as_bool() {
+                // Ignore until the input is released.
+                // Consumed or UI-captured input is still held, so check the raw value.
+                if reader.raw_value(binding.input).as_bool() {
                     continue;
                 } else {
                     binding.ignored = false;
